@@ -309,10 +309,34 @@ fn later_page_cases(out: &mut Out, rng: &mut Rng, toks: &mut Toks, thorough: boo
     }
 }
 
+/// The same scenario against a SLOW server: one response frame every 600 ms of virtual time under a per-`next()`
+/// time-out of 1000 ms.  Every single wait stays below the time-out (the timer restarts with every item and with
+/// every page), so nothing may change — but the waits add up across an item, a page's final result and the next
+/// page's first item, which is what a deadline carried over from one wait to the next would trip over.
+fn slow_server_rerun(out: &mut Out, sc: &Scenario, fast: &Obs) {
+    SERVER_DELAY_MS.with(|d| d.set(600));
+    let slow = check_scenario(out, "paged", sc, false);
+    SERVER_DELAY_MS.with(|d| d.set(0));
+    out.stat("slow-server");
+    out.r(
+        &format!("paged.slow-server-below-the-timeout-changes-nothing chain={}", chain_text(&sc.chain)),
+        slow.outputs == fast.outputs && slow.reqs.len() == fast.reqs.len(),
+        &format!("fast server: {:?} ({} requests); one frame per 600 ms, time-out 1000 ms: {:?} ({} requests); pages={}", fast.outputs, fast.reqs.len(), slow.outputs, slow.reqs.len(), pages_text(&sc.pages)),
+    );
+}
+
 pub fn run(thorough: bool, mut rng: Rng, mut out: Out) {
     let mut toks = Toks(1000);
     let chains = [vec![0u8], vec![1, 0], vec![0, 1]];
     let mk_chain = |c: &Vec<u8>, size: i32| -> Vec<A> { c.iter().map(|x| if *x == 0 { A::P(size) } else { A::E }).collect() };
+    // 0. corpus: three pages of two entries read to the end with a per-item time-out, slow server (seed C12f)
+    for w in 0..3 {
+        let mut pc = gen_case(&mut rng, &mut toks, mk_chain(&chains[w], 2), 6, 2, 0);
+        pc.sc.handle.tmo = true;
+        let o = check_scenario(&mut out, "paged", &pc.sc, false);
+        slow_server_rerun(&mut out, &pc.sc, &o);
+        out.case(&format!("corpus slow-server {}", scenario_request(&pc.sc, "-")), true);
+    }
     // 1. result-set sizes 0..50 x page sizes 1..10 and one larger than the total; chain rotates
     //    (all three chains on every combination when thorough)
     let mut idx = 0usize;
@@ -327,6 +351,9 @@ pub fn run(thorough: bool, mut rng: Rng, mut out: Out) {
                 let mode = if idx % 4 == 3 { 1 } else { 0 };
                 let pc = gen_case(&mut rng, &mut toks, chain, total, size, mode);
                 let o = check_scenario(&mut out, "paged", &pc.sc, false);
+                if pc.sc.handle.tmo && total <= 12 {
+                    slow_server_rerun(&mut out, &pc.sc, &o);
+                }
                 out.case(&scenario_request(&pc.sc, "-"), true);
                 out.stat(&format!("pages={}", pc.consumed.min(9)));
                 out.stat(if mode == 0 { "read-to-end" } else { "stopped-early" });
